@@ -662,9 +662,9 @@ func chainList(tier string, seed int64) []chainCfg {
 	}
 	presets := []string{"S1", "S4", "S2", "S3", "S1", "S4"}
 	scheds := [][4]int{{1, 2, 3, 4}, {0, 0, 0, 0}, {0, 0, 1, 2}, {0, 1, 1, 3}, {1, 1, 2, 3}, {2, 4, 6, 8}, {0, 0, 0, 1}, {0, 1, -1, -1},
-		{-1, -1, -1, -1}, {3, 5, 7, 9}, {2, 2, 2, 2}, {0, 2, 3, 3}, {1, 3, 3, 5}}
+		{-1, -1, -1, -1}, {3, 5, 7, 9}, {2, 2, 2, 2}, {0, 2, 3, 3}, {1, 3, 3, 5}, {3, 6, 9, 12}, {5, 5, 10, 10}, {4, 8, -1, -1}, {2, 6, 10, -1}}
 	rng := rand.New(rand.NewSource(seed))
-	for i := 0; i < 60; i++ {
+	for i := 0; i < 100; i++ {
 		p := presets[i%len(presets)]
 		s := scheds[(i/2+rng.Intn(3))%len(scheds)]
 		ep := 18
@@ -746,7 +746,9 @@ func record(cfg chainCfg, f *os.File) {
 			g.PendingDeposits = append(g.PendingDeposits, chain.DepositSpec{Key: chain.KeyID(cfg.Validators + i)})
 		}
 		c, err = chain.NewGenesis(spec, g)
-		steps = chain.RandomScenario(rand.New(rand.NewSource(cfg.Seed)), spec, chain.ScenarioOpts{Epochs: cfg.Epochs, Validators: cfg.Validators})
+		// the cache-fork script needs eth1 votes to succeed on both sides: participation patterns only
+		steps = chain.RandomScenario(rand.New(rand.NewSource(cfg.Seed)), spec, chain.ScenarioOpts{Epochs: cfg.Epochs, Validators: cfg.Validators,
+			Calm: cfg.Script == "branch-other-deposits"})
 	}
 	if err != nil {
 		// zrnt could not even build the genesis of this chain: reported, the runner decides what it means
@@ -838,7 +840,7 @@ func record(cfg chainCfg, f *os.File) {
 	case "branch-other-deposits":
 		// the branch sees another deposit (other pubkey at the next validator index) than main:
 		// the shared pubkey cache has to fork out
-		cut := len(steps) / 3
+		cut := len(steps) / 4 // inside the warm-up phase (full participation)
 		if runSteps(c, steps[:cut]) {
 			cb := r.branch(c)
 			ka, km := chain.KeyID(90), chain.KeyID(91)
